@@ -99,6 +99,16 @@ def main(argv=None):
         for k_, why in r.fallback.items():
             if pid in g.owner_props.get(k_, []) and r.modes.get(k_) == 'external':
                 soft.append((name, k_, why))
+        # a function on this property's path that the verifier reports as not verified, with no failure attributed to the property
+        # through a clause label: report its failures under the function's own properties
+        for short, st in r.fn_stats.items():
+            if st.get('success') is False and pid in (g.owner_props.get(short) or []):
+                if not any(f.owner == short for (_, f) in failures) and not any(s_[1] == short for s_ in soft):
+                    for f in r.failures:
+                        if f.owner == short:
+                            md = r.modes.get(f.owner)
+                            if md in ('contract_only', 'external'): soft.append((name, f.owner, 'contract-only verification of the rewritten function failed: ' + f.ident()))
+                            else: failures.append((name, f))
         for (fname, k_, props_) in g.missing:
             if pid in props_: soft.append((name, k_, 'contracted function no longer exists'))
         for (own, msg) in r.rlimit:
@@ -132,7 +142,23 @@ def main(argv=None):
             print('KNOWN-FINDING: property=%s %s' % (pid, k['what'])); printed.add(k['what'])
     bounded_runs = []
     soft_viol = []
-    if soft and not new_fail:
+    if spec.get('always_bounded') and not new_fail:
+        # a function that is permanently outside the verifier's reach (stated in DESIGN.md): bounded stand-in on every run, never counted as proved
+        from vx import witness
+        ab = spec['always_bounded']
+        try:
+            tried = 0; found = None
+            for cat in ab['categories']:
+                ds, n_ = witness.run_category(cat, a.repo_src, seed)
+                tried += n_
+                for d in ds:
+                    if pid in d['properties'] and found is None: found = d
+            bounded_runs.append(dict(kind='differential replay corpus vs reference semantics (vx/oracle.py)', function=ab['function'], cases=tried, bound=ab['bound'], found=bool(found)))
+            if found:
+                soft.append(('bounded', ab['function'], ab['why'])); soft_viol.append(found)
+        except Exception as e:
+            undecided.append('bounded stand-in for %s failed: %s: %s' % (ab['function'], type(e).__name__, str(e)[:200]))
+    if soft and not new_fail and not soft_viol:
         from vx import witness
         try:
             d, tried = witness.search(pid, None, a.repo_src, seed)
